@@ -64,6 +64,7 @@ fn main() {
         "C11" => run_property(&props::c11::C11, &args),
         "C12" => run_property(&props::c12::C12, &args),
         "C13" => run_property(&props::c13::C13, &args),
+        "C14" => run_property(&props::c14::C14, &args),
         "C17" => run_property(&props::c17::C17, &args),
         "C20" => run_property(&props::c20::C20, &args),
         x => {
